@@ -123,10 +123,35 @@ def splice_nocheck(dst):
             f.write(add.encode())
 
 
+# Dependency substitutions (verification build only; see kani/common/vecset.rs and DESIGN.md 11.8).
+# (file, exact line that must occur exactly once, replacement).  Everything else of the file stays
+# byte for byte; a missing or repeated anchor line is a lost anchor (UNDECIDED), never a violation.
+DEP_SUBSTITUTIONS = [
+    ("src/rt/rwlock.rs", "use std::collections::HashSet;", "use self::verif_kani::vecset::HashSet;"),
+]
+
+
+def substitute_deps(dst, check=True):
+    for rel, old, new in DEP_SUBSTITUTIONS:
+        target = os.path.join(dst, rel)
+        lines = open(target).read().split("\n")
+        hits = [i for i, l in enumerate(lines) if l == old]
+        if len(hits) != 1:
+            raise Undecided("lost anchor: %s must contain the line %r exactly once (found %d)" % (rel, old, len(hits)))
+        before = list(lines)
+        lines[hits[0]] = new
+        open(target, "w").write("\n".join(lines))
+        if check:
+            diff = [i for i, (a, b) in enumerate(zip(before, lines)) if a != b]
+            if diff != hits or len(before) != len(lines):
+                raise Undecided("dependency substitution changed more than one line of %s" % rel)
+
+
 def prepare(tag=None):
     dst = make_scratch(tag)
     copy_repo(dst)
     shas = splice(dst)
+    substitute_deps(dst)
     patch_cargo_toml(dst)
     return dst, shas
 
